@@ -111,9 +111,9 @@ func shortHex(b []byte) string {
 }
 
 var files = ev.NewCheck("C03", "written-files",
-	"rapid: the C01 API-history generator (incl. one track in forty with 1000..5000 Add calls) restricted to deltas <= 0x0FFFFFFF, both running-status modes; oracle = independent strict SMF 1.0 parser (header length 6, ntrks == number of MTrk chunks, exact chunk lengths, exactly one end-of-track per track and last, canonical VLQs, running status only where legal, no trailing bytes) must accept and recover the modelled content; reported size == bytes emitted; second write identical; non-trivial = track body >= 128 bytes or >= 2 tracks or a running-status opportunity right after a meta/sysex event; distinct by written bytes",
+	"rapid: the C01 API-history generator (incl. one track in 120 with 1000..5000 Add calls) restricted to deltas <= 0x0FFFFFFF, both running-status modes; oracle = independent strict SMF 1.0 parser (header length 6, ntrks == number of MTrk chunks, exact chunk lengths, exactly one end-of-track per track and last, canonical VLQs, running status only where legal, no trailing bytes) must accept and recover the modelled content; reported size == bytes emitted; second write identical; non-trivial = track body >= 128 bytes or >= 2 tracks or a running-status opportunity right after a meta/sysex event; distinct by written bytes",
 	func(t *rapid.T) gen.APICase {
-		return gen.API(t, gen.APIOpts{MaxTracks: 6, MaxOps: 10, MaxPayload: 70000, MaxDelta: 0x0FFFFFFF, LongTracks: 40})
+		return gen.API(t, gen.APIOpts{MaxTracks: 6, MaxOps: 10, MaxPayload: 70000, MaxDelta: 0x0FFFFFFF, LongTracks: 120})
 	}, run)
 
 func TestPropWrittenFiles(t *testing.T) { files.Rapid(t, 2000, 50000) }
